@@ -1003,6 +1003,483 @@ Proof.
   exists c. split; [exact H1|]. split; [exact H2|]. intro key. apply key_total_perm, H2.
 Qed.
 
+(* ------------------------------------------------------------------ *)
+(* Part 4c: a definition and the quantities counted under it           *)
+
+Definition nth_ing (all : list ingredient) (i : N) : option ingredient := nth_error all (N.to_nat i).
+Definition indices (all : list ingredient) : list N := map N.of_nat (List.seq 0%nat (List.length all)).
+
+(* [j] is a reference to ingredient [i] (not to a step or a section) *)
+Definition refers_to (all : list ingredient) (i j : N) : bool :=
+  match nth_ing all j with
+  | Some y => match irel y with RRef t true => (t =? i)%N | _ => false end
+  | None => false
+  end.
+
+(* the references to [i], in recipe order *)
+Definition refs_to (all : list ingredient) (i : N) : list N := filter (refers_to all i) (indices all).
+
+Definition qty_at (all : list ingredient) (j : N) : list qty :=
+  match nth_ing all j with Some y => opt_list (iqty y) | None => [] end.
+
+(* what is counted under definition [x] at index [i]: its own quantity, then
+   those of the references to it, in recipe order *)
+Definition owned (all : list ingredient) (i : N) (x : ingredient) : list qty :=
+  opt_list (iqty x) ++ flat_map (qty_at all) (refs_to all i).
+
+Fixpoint list_N_eqb (a b : list N) : bool :=
+  match a, b with
+  | [], [] => true
+  | x :: a', y :: b' => (x =? y)%N && list_N_eqb a' b'
+  | _, _ => false
+  end.
+
+(* referential consistency (property C06) as far as grouping reads it: a
+   definition's referenced_from is exactly the references to it, in order; a
+   reference to an ingredient points back to a definition *)
+Definition consistent_at (all : list ingredient) (i : N) (x : ingredient) : bool :=
+  match irel x with
+  | RDef refs => list_N_eqb refs (refs_to all i)
+  | RRef t true => (t <? i)%N && match nth_ing all t with Some y => is_definition (irel y) | None => false end
+  | RRef _ false => true
+  end.
+
+Definition consistent (all : list ingredient) : bool :=
+  forallb (fun j => match nth_ing all j with Some x => consistent_at all j x | None => false end) (indices all).
+
+Lemma list_N_eqb_eq a : forall b, list_N_eqb a b = true -> a = b.
+Proof.
+  induction a as [|x a IH]; intros [|y b]; cbn [list_N_eqb]; intro H; try discriminate; [reflexivity|].
+  apply andb_true_iff in H as [H1 H2]. apply N.eqb_eq in H1. subst y. f_equal. apply IH, H2.
+Qed.
+
+Lemma in_indices all i : In i (indices all) <-> (N.to_nat i < List.length all)%nat.
+Proof.
+  unfold indices. rewrite in_map_iff. split.
+  - intros (k & E & Hk). apply in_seq in Hk. subst i. rewrite Nat2N.id. lia.
+  - intro H. exists (N.to_nat i). split; [apply N2Nat.id|]. apply in_seq. lia.
+Qed.
+
+Lemma nth_ing_in all i x : nth_ing all i = Some x -> In i (indices all) /\ In x all.
+Proof.
+  unfold nth_ing. intro H. split.
+  - apply in_indices. apply nth_error_Some. congruence.
+  - eapply nth_error_In; eassumption.
+Qed.
+
+Lemma consistent_nth all i x : consistent all = true -> nth_ing all i = Some x -> consistent_at all i x = true.
+Proof.
+  unfold consistent. intros H Hx. rewrite forallb_forall in H.
+  specialize (H i (proj1 (nth_ing_in _ _ _ Hx))). rewrite Hx in H. exact H.
+Qed.
+
+(* each reference is counted under exactly one definition, once *)
+Lemma refs_to_spec all i j :
+  In j (refs_to all i) <-> exists y, nth_ing all j = Some y /\ irel y = RRef i true.
+Proof.
+  unfold refs_to. rewrite filter_In. unfold refers_to. split.
+  - intros [_ H]. destruct (nth_ing all j) as [y|]; [|discriminate]. exists y. split; [reflexivity|].
+    destruct (irel y) as [|t [|]]; try discriminate. apply N.eqb_eq in H. subst t. reflexivity.
+  - intros (y & Hy & Hr). split; [apply (nth_ing_in _ _ _ Hy)|]. rewrite Hy, Hr. apply N.eqb_refl.
+Qed.
+
+Lemma indices_nodup all : NoDup (indices all).
+Proof.
+  unfold indices. apply FinFun.Injective_map_NoDup; [|apply seq_NoDup].
+  intros a b H. apply Nat2N.inj in H. exact H.
+Qed.
+
+Lemma refs_to_nodup all i : NoDup (refs_to all i).
+Proof. unfold refs_to. apply NoDup_filter, indices_nodup. Qed.
+
+(* under consistency a reference comes after its definition, and its target is a definition *)
+Lemma refs_after all i j : consistent all = true -> In j (refs_to all i) ->
+  (i < j)%N /\ exists x, nth_ing all i = Some x /\ is_definition (irel x) = true.
+Proof.
+  intros Hc Hj. apply refs_to_spec in Hj as (y & Hy & Hr).
+  pose proof (consistent_nth _ _ _ Hc Hy) as H. unfold consistent_at in H. rewrite Hr in H.
+  apply andb_true_iff in H as [H1 H2]. apply N.ltb_lt in H1. split; [exact H1|].
+  destruct (nth_ing all i) as [x|]; [|discriminate]. exists x. auto.
+Qed.
+
+Lemma ref_qtys_ok all refs :
+  (forall j, In j refs -> In j (indices all)) -> ref_qtys all refs = Done (flat_map (qty_at all) refs).
+Proof.
+  induction refs as [|j r IH]; intro H; cbn [ref_qtys flat_map]; [reflexivity|].
+  assert (Hj : In j (indices all)) by (apply H; left; reflexivity).
+  apply in_indices in Hj. unfold qty_at at 1, nth_ing.
+  destruct (nth_error all (N.to_nat j)) as [y|] eqn:E.
+  - rewrite IH by (intros; apply H; right; assumption). reflexivity.
+  - apply nth_error_None in E. lia.
+Qed.
+
+(* all_quantities lists exactly the owned quantities, in recipe order; no index panic *)
+Lemma all_quantities_ok all i x :
+  consistent all = true -> nth_ing all i = Some x -> is_definition (irel x) = true ->
+  all_quantities all x = Done (owned all i x).
+Proof.
+  intros Hc Hx Hd. pose proof (consistent_nth _ _ _ Hc Hx) as H. unfold consistent_at in H.
+  unfold all_quantities, owned. destruct (irel x) as [refs|]; [|discriminate]. cbn [referenced_from].
+  apply list_N_eqb_eq in H. subst refs.
+  rewrite ref_qtys_ok; [reflexivity|]. intros j Hj. unfold refs_to in Hj. apply filter_In in Hj. tauto.
+Qed.
+
+Lemma owned_in all i x q : In x all -> In q (owned all i x) -> exists y, In y all /\ iqty y = Some q.
+Proof.
+  intros Hx H. unfold owned in H. apply in_app_or in H as [H|H].
+  - exists x. split; [exact Hx|]. destruct (iqty x); cbn in H; [destruct H as [->|[]]; reflexivity | contradiction].
+  - apply in_flat_map in H as (j & _ & H). unfold qty_at in H.
+    destruct (nth_ing all j) as [y|] eqn:E; [|contradiction]. exists y. split; [apply (nth_ing_in _ _ _ E)|].
+    destruct (iqty y); cbn in H; [destruct H as [->|[]]; reflexivity | contradiction].
+Qed.
+
+(* every quantity written in the recipe is offset-free *)
+Definition recipe_free (T : table) (all : list ingredient) : Prop :=
+  forall y q, In y all -> iqty y = Some q -> q_free T q.
+
+Section Recipes.
+  Variable T : table.
+  Variable fitq : qty -> option qty.
+  Hypothesis Hsane : sane T = true.
+  (* C09: Quantity::fit keeps the amount *)
+  Hypothesis fit_amount : forall q q', fitq q = Some q' -> contrib T q' ≡ contrib T q.
+
+  Lemma group_quantities_ok all i x :
+    consistent all = true -> recipe_free T all -> nth_ing all i = Some x -> is_definition (irel x) = true ->
+    exists g, group_quantities T fitq all x = Done g /\ total T g ≡ sum_contrib T (owned all i x).
+  Proof.
+    intros Hc Hf Hx Hd. unfold group_quantities. rewrite (all_quantities_ok all i x Hc Hx Hd). cbn [obind].
+    destruct (fold_free T (owned all i x) Hsane) as (g & H1 & H2).
+    { apply Forall_forall. intros q Hq.
+      destruct (owned_in all i x q (proj2 (nth_ing_in _ _ _ Hx)) Hq) as (y & Hy & E). eapply Hf; eassumption. }
+    rewrite H1. cbn [obind]. eexists. split; [reflexivity|].
+    rewrite (fit_total T fitq fit_amount). exact H2.
+  Qed.
+
+  (* the indices group_ingredients reports: the definitions, in recipe order *)
+  Fixpoint def_indices (rest : list ingredient) (idx : N) : list N :=
+    match rest with
+    | [] => []
+    | x :: r => if is_definition (irel x) then idx :: def_indices r (idx + 1) else def_indices r (idx + 1)
+    end.
+
+  Definition entry_ok (all : list ingredient) (e : N * ingredient * gq) : Prop :=
+    let '(i, x, g) := e in
+    nth_ing all i = Some x /\ is_definition (irel x) = true /\ total T g ≡ sum_contrib T (owned all i x).
+
+  Lemma group_from_ok all : consistent all = true -> recipe_free T all ->
+    forall rest idx, (forall k, nth_error rest k = nth_error all (N.to_nat idx + k)) ->
+    exists es, group_from T fitq all rest idx = Done es /\
+               map (fun e => fst (fst e)) es = def_indices rest idx /\ Forall (entry_ok all) es.
+  Proof.
+    intros Hc Hf. induction rest as [|x r IH]; intros idx Hn; cbn [group_from def_indices].
+    - exists []. repeat split. constructor.
+    - assert (Hx : nth_ing all idx = Some x).
+      { unfold nth_ing. rewrite <- (Nat.add_0_r (N.to_nat idx)), <- Hn. reflexivity. }
+      destruct (IH (idx + 1)%N) as (es & H1 & H2 & H3).
+      { intro k. rewrite N2Nat.inj_add. change (N.to_nat 1) with 1%nat.
+        replace (N.to_nat idx + 1 + k)%nat with (N.to_nat idx + S k)%nat by lia. rewrite <- Hn. reflexivity. }
+      destruct (is_definition (irel x)) eqn:Hd.
+      + destruct (group_quantities_ok all idx x Hc Hf Hx Hd) as (g & G1 & G2).
+        rewrite G1, H1. cbn [obind]. eexists. split; [reflexivity|]. split.
+        * cbn [map fst]. rewrite H2. reflexivity.
+        * constructor; [|exact H3]. cbn. auto.
+      + rewrite H1. exists es. auto.
+  Qed.
+
+  Lemma group_ingredients_ok all : consistent all = true -> recipe_free T all ->
+    exists es, group_ingredients T fitq all = Done es /\
+               map (fun e => fst (fst e)) es = def_indices all 0 /\ Forall (entry_ok all) es.
+  Proof. intros Hc Hf. unfold group_ingredients. apply group_from_ok; auto. Qed.
+End Recipes.
+
+(* ------------------------------------------------------------------ *)
+(* Part 4d: what a group holds keeps the units of what went in          *)
+
+Lemma in_iter g x :
+  In x (Group.iter g) <->
+  (exists p, known g p = Some x) \/ In x (map snd (unknown g)) \/ In x (other g) \/ no_unit g = Some x.
+Proof.
+  unfold Group.iter. rewrite !in_app_iff, in_flat_map.
+  assert (K : (exists p, In p pq_all /\ In x (opt_list (known g p))) <-> (exists p, known g p = Some x)).
+  { split; intros (p & H).
+    - exists p. destruct H as [_ H]. destruct (known g p); cbn in H; [destruct H as [->|[]]; reflexivity | contradiction].
+    - exists p. split; [destruct p; cbn; tauto|]. rewrite H. left; reflexivity. }
+  assert (N : In x (opt_list (no_unit g)) <-> no_unit g = Some x).
+  { destruct (no_unit g); cbn; split; intro H; try contradiction; try discriminate.
+    - destruct H as [->|[]]; reflexivity.
+    - inversion H; auto. }
+  rewrite K, N. tauto.
+Qed.
+
+Lemma in_map_insert {V} k (s : V) U x : In x (map snd (map_insert k s U)) -> x = s \/ In x (map snd U).
+Proof.
+  induction U as [|[k' v'] r IH]; cbn [map_insert map snd In].
+  - intros [H|[]]; auto.
+  - destruct (str_eqb k k'); cbn [map snd In]; intros [H|H]; auto. destruct (IH H); auto.
+Qed.
+
+Lemma in_iter_push_other g q x : In x (Group.iter (push_other g q)) -> x = q \/ In x (Group.iter g).
+Proof.
+  rewrite !in_iter. unfold push_other; cbn [known unknown other no_unit]. rewrite in_app_iff. cbn [In].
+  intros [H|[H|[[H|[H|[]]]|H]]]; auto 6.
+Qed.
+Lemma in_iter_set_no_unit g q x : In x (Group.iter (set_no_unit g q)) -> x = q \/ In x (Group.iter g).
+Proof.
+  rewrite !in_iter. unfold set_no_unit; cbn [known unknown other no_unit].
+  intros [H|[H|[H|H]]]; auto 6. inversion H; auto.
+Qed.
+Lemma in_iter_set_known g p q x : In x (Group.iter (set_known g p q)) -> x = q \/ In x (Group.iter g).
+Proof.
+  rewrite !in_iter. unfold set_known; cbn [known unknown other no_unit].
+  intros [(p' & H)|[H|[H|H]]]; auto 6. destruct (pq_eqb p' p); [inversion H; auto | right; left; eauto].
+Qed.
+Lemma in_iter_set_unknown g k q x : In x (Group.iter (set_unknown g k q)) -> x = q \/ In x (Group.iter g).
+Proof.
+  rewrite !in_iter. unfold set_unknown; cbn [known unknown other no_unit].
+  intros [H|[H|[H|H]]]; auto 6. destruct (in_map_insert _ _ _ _ H); auto.
+Qed.
+
+Lemma try_add_unit T' a b s : try_add T' a b = Done (Some s) -> qunit s = qunit a.
+Proof.
+  unfold try_add. destruct (compatible_unit T' a b) as [to|]; [|discriminate].
+  destruct (match to with Some u => convert_qty T' b u | None => Done (Some (qval b)) end) as [r|]; cbn [obind]; [|discriminate].
+  destruct r as [vb|]; [|discriminate]. destruct (value_add (qval a) vb); intro H; inversion H; reflexivity.
+Qed.
+
+Section UnitInvariant.
+  Variable P : qty -> Prop.
+  Hypothesis P_unit : forall a b, qunit a = qunit b -> P a -> P b.
+
+  Lemma add_to_forall T' g stored q store g' :
+    (forall s x, In x (Group.iter (store s)) -> x = s \/ In x (Group.iter g)) ->
+    Forall P (Group.iter g) -> In stored (Group.iter g) -> P q ->
+    add_to T' g stored q store = Done g' -> Forall P (Group.iter g').
+  Proof.
+    intros Hst Hg Hin Hq. unfold add_to. destruct (try_add T' stored q) as [r|] eqn:E; cbn [obind]; [|discriminate].
+    rewrite Forall_forall in Hg.
+    destruct r as [s|]; intro H; inversion H; subst g'; apply Forall_forall; intros x Hx.
+    - destruct (Hst _ _ Hx) as [->|Hx']; [|auto]. apply (P_unit stored); [symmetry; eapply try_add_unit; eassumption | auto].
+    - destruct (in_iter_push_other _ _ _ Hx) as [->|Hx']; auto.
+  Qed.
+
+  Lemma add_forall T' g q g' :
+    Forall P (Group.iter g) -> P q -> add T' g q = Done g' -> Forall P (Group.iter g').
+  Proof.
+    intros Hg Hq. unfold add.
+    assert (Hfresh : forall g1, (forall x, In x (Group.iter g1) -> x = q \/ In x (Group.iter g)) -> Forall P (Group.iter g1)).
+    { intros g1 H1. apply Forall_forall. intros x Hx. rewrite Forall_forall in Hg. destruct (H1 _ Hx) as [->|]; auto. }
+    destruct (is_text (qval q)).
+    { intro H; inversion H; subst. apply Hfresh. apply in_iter_push_other. }
+    destruct (qunit q) as [k|].
+    - destruct (find_unit T' k) as [u|].
+      + destruct (known g (upq u)) as [st|] eqn:K.
+        * apply add_to_forall; auto; [intros; eapply in_iter_set_known; eassumption | apply in_iter; eauto].
+        * intro H; inversion H; subst. apply Hfresh. apply in_iter_set_known.
+      + destruct (aget k (unknown g)) as [st|] eqn:K.
+        * apply add_to_forall; auto; [intros; eapply in_iter_set_unknown; eassumption|].
+          apply in_iter. right; left. clear -K. induction (unknown g) as [|[k' v'] r IH]; cbn [aget] in K; [discriminate|].
+          cbn [map snd In]. destruct (str_eqb k k'); [inversion K; auto | auto].
+        * intro H; inversion H; subst. apply Hfresh. apply in_iter_set_unknown.
+    - destruct (no_unit g) as [st|] eqn:K.
+      + apply add_to_forall; auto; [intros; eapply in_iter_set_no_unit; eassumption | apply in_iter; auto 6].
+      + intro H; inversion H; subst. apply Hfresh. apply in_iter_set_no_unit.
+  Qed.
+
+  Lemma add_all_forall T' qs : forall g g',
+    Forall P (Group.iter g) -> Forall P qs -> add_all T' g qs = Done g' -> Forall P (Group.iter g').
+  Proof.
+    induction qs as [|q r IH]; intros g g' Hg Hq; cbn [add_all].
+    - intro H; inversion H; subst; exact Hg.
+    - inversion Hq; subst. destruct (add T' g q) as [g1|] eqn:E; cbn [obind]; [|discriminate].
+      apply IH; [eapply add_forall; eassumption | assumption].
+  Qed.
+
+  Lemma fit_slots_forall fitq ps : forall g,
+    (forall q q', fitq q = Some q' -> P q -> P q') ->
+    Forall P (Group.iter g) -> Forall P (Group.iter (fst (fit_slots fitq g ps))).
+  Proof.
+    induction ps as [|p r IH]; intros g Hfit Hg; cbn [fit_slots fst]; [exact Hg|].
+    destruct (known g p) as [q|] eqn:K; [|apply IH; auto].
+    destruct (fitq q) as [q'|] eqn:F; [|exact Hg].
+    apply IH; [exact Hfit|]. apply Forall_forall. intros x Hx. rewrite Forall_forall in Hg.
+    destruct (in_iter_set_known _ _ _ _ Hx) as [->|]; [|auto].
+    apply (Hfit q q' F). apply Hg. apply in_iter. eauto.
+  Qed.
+End UnitInvariant.
+
+Lemma q_free_unit T a b : qunit a = qunit b -> q_free T a -> q_free T b.
+Proof. unfold q_free. intros E H k u. rewrite <- E. apply H. Qed.
+
+Definition gfree (T : table) (g : gq) : Prop := Forall (q_free T) (Group.iter g).
+
+Lemma gfree_empty T : gfree T gq_empty.
+Proof. constructor. Qed.
+
+(* ------------------------------------------------------------------ *)
+(* Part 4e: IngredientList                                             *)
+
+(* the total listed under one display name *)
+Definition name_total (T : table) (n : str) (l : ilist) : summary :=
+  ssum (map (fun e => if str_eqb (fst e) n then total T (snd e) else szero) l).
+
+Lemma name_total_perm T n a b : Permutation a b -> name_total T n a ≡ name_total T n b.
+Proof. intro H. apply ssum_perm, Permutation_map, H. Qed.
+
+Lemma name_total_cons T n k g l :
+  name_total T n ((k, g) :: l) = (if str_eqb k n then total T g else szero) ⊕ name_total T n l.
+Proof. reflexivity. Qed.
+
+Lemma add_ingredient_spec T l name g :
+  sane T = true -> gfree T g ->
+  exists l', add_ingredient T l name g = Done l' /\
+    forall n, name_total T n l' ≡ name_total T n l ⊕ (if str_eqb name n then total T g else szero).
+Proof.
+  intros Hs Hg. unfold add_ingredient.
+  destruct (bt_alter_total name (fun o => merge T (match o with Some e => e | None => gq_empty end) g) l) as [l' Hb].
+  { intro o. destruct (merge_free T T (match o with Some e => e | None => gq_empty end) g Hs (agrees_refl T) Hg) as (v & Hv & _).
+    exists v. exact Hv. }
+  exists l'. split; [exact Hb|]. intro n.
+  destruct (bt_alter_perm _ _ _ _ Hb) as (o & v & Hv & P).
+  destruct (merge_free T T (match o with Some e => e | None => gq_empty end) g Hs (agrees_refl T) Hg) as (v' & Hv' & Ht).
+  rewrite Hv in Hv'. inversion Hv'; subst v'. clear Hv'.
+  destruct o as [e|].
+  - destruct P as (m0 & P0 & P1).
+    rewrite (name_total_perm T n _ _ P1), (name_total_perm T n _ _ P0), !name_total_cons.
+    destruct (str_eqb name n).
+    + rewrite Ht. generalize (total T e) (total T g) (name_total T n m0). intros A B C. smon.
+    + generalize (name_total T n m0). intros C. smon.
+  - rewrite (name_total_perm T n _ _ P), name_total_cons.
+    destruct (str_eqb name n).
+    + rewrite Ht, total_empty. generalize (total T g) (name_total T n l). intros B C. smon.
+    + generalize (name_total T n l). intros C. smon.
+Qed.
+
+(* what a list of grouped definitions adds under a name: hidden and
+   reference-only ones are not listed *)
+Definition listed_total (T : table) (n : str) (es : list (N * ingredient * gq)) : summary :=
+  ssum (map (fun e => if should_be_listed (snd (fst e)) && str_eqb (display_name (snd (fst e))) n
+                      then total T (snd e) else szero) es).
+
+Lemma listed_total_cons T n e r :
+  listed_total T n (e :: r) =
+  (if should_be_listed (snd (fst e)) && str_eqb (display_name (snd (fst e))) n then total T (snd e) else szero)
+  ⊕ listed_total T n r.
+Proof. reflexivity. Qed.
+
+Lemma add_entries_spec T es : forall l,
+  sane T = true -> Forall (fun e => gfree T (snd e)) es ->
+  exists l', add_entries T l es = Done l' /\
+    forall n, name_total T n l' ≡ name_total T n l ⊕ listed_total T n es.
+Proof.
+  induction es as [|[[i x] g] r IH]; intros l Hs Hf; cbn [add_entries].
+  - exists l. split; [reflexivity|]. intro n. unfold listed_total; cbn [map ssum]. symmetry. apply splus_zero_r.
+  - inversion Hf as [|? ? Hg Hr]; subst. cbn [snd] in Hg.
+    destruct (should_be_listed x) eqn:Hl.
+    + destruct (add_ingredient_spec T l (display_name x) g Hs Hg) as (l1 & H1 & H2). rewrite H1. cbn [obind].
+      destruct (IH l1 Hs Hr) as (l2 & H3 & H4). exists l2. split; [exact H3|]. intro n.
+      rewrite listed_total_cons; cbn [fst snd]. rewrite Hl, H4, H2. cbn [andb]. apply splus_assoc.
+    + destruct (IH l Hs Hr) as (l2 & H3 & H4). exists l2. split; [exact H3|]. intro n.
+      rewrite listed_total_cons; cbn [fst snd]. rewrite Hl, H4. cbn [andb]. rewrite splus_zero_l. reflexivity.
+Qed.
+
+Section Lists.
+  Variable T : table.
+  Variable fitq : qty -> option qty.
+  Hypothesis Hsane : sane T = true.
+  (* C09: Quantity::fit keeps the amount and stays within offset-free units *)
+  Hypothesis fit_amount : forall q q', fitq q = Some q' -> contrib T q' ≡ contrib T q.
+  Hypothesis fit_free : forall q q', fitq q = Some q' -> q_free T q -> q_free T q'.
+
+  (* what recipe [all] lists under display name [n]: for each ingredient in
+     recipe order, if it is a definition that should be listed and is shown
+     under [n], everything counted under it *)
+  Fixpoint listed_sum (all : list ingredient) (n : str) (rest : list ingredient) (idx : N) : summary :=
+    match rest with
+    | [] => szero
+    | x :: r =>
+        (if is_definition (irel x) && should_be_listed x && str_eqb (display_name x) n
+         then sum_contrib T (owned all idx x) else szero) ⊕ listed_sum all n r (idx + 1)
+    end.
+
+  Definition recipe_lists (all : list ingredient) (n : str) : summary := listed_sum all n all 0.
+
+  Lemma group_quantities_free all i x g :
+    consistent all = true -> recipe_free T all -> nth_ing all i = Some x -> is_definition (irel x) = true ->
+    group_quantities T fitq all x = Done g -> gfree T g.
+  Proof.
+    intros Hc Hf Hx Hd. unfold group_quantities. rewrite (all_quantities_ok all i x Hc Hx Hd). cbn [obind].
+    destruct (add_all T gq_empty (owned all i x)) as [g0|] eqn:E; cbn [obind]; [|discriminate].
+    intro H; inversion H; subst g. unfold gfree, fit.
+    apply (fit_slots_forall (q_free T)); [exact fit_free|].
+    apply (add_all_forall (q_free T) (q_free_unit T) T (owned all i x) gq_empty g0); [constructor| |exact E].
+    apply Forall_forall. intros q Hq.
+    destruct (owned_in all i x q (proj2 (nth_ing_in _ _ _ Hx)) Hq) as (y & Hy & Ey). eapply Hf; eassumption.
+  Qed.
+
+  Lemma group_from_listed all : consistent all = true -> recipe_free T all ->
+    forall rest idx, (forall k, nth_error rest k = nth_error all (N.to_nat idx + k)) ->
+    exists es, group_from T fitq all rest idx = Done es /\
+               Forall (fun e => gfree T (snd e)) es /\
+               forall n, listed_total T n es ≡ listed_sum all n rest idx.
+  Proof.
+    intros Hc Hf. induction rest as [|x r IH]; intros idx Hn; cbn [group_from listed_sum].
+    - exists []. split; [reflexivity|]. split; [constructor|]. intro n. reflexivity.
+    - assert (Hx : nth_ing all idx = Some x).
+      { unfold nth_ing. rewrite <- (Nat.add_0_r (N.to_nat idx)), <- Hn. reflexivity. }
+      destruct (IH (idx + 1)%N) as (es & H1 & H2 & H3).
+      { intro k. rewrite N2Nat.inj_add. change (N.to_nat 1) with 1%nat.
+        replace (N.to_nat idx + 1 + k)%nat with (N.to_nat idx + S k)%nat by lia. rewrite <- Hn. reflexivity. }
+      destruct (is_definition (irel x)) eqn:Hd.
+      + destruct (group_quantities_ok T fitq Hsane fit_amount all idx x Hc Hf Hx Hd) as (g & G1 & G2).
+        rewrite G1, H1. cbn [obind]. eexists. split; [reflexivity|]. split.
+        * constructor; [|exact H2]. cbn [snd]. eapply group_quantities_free; eassumption.
+        * intro n. rewrite listed_total_cons; cbn [fst snd andb].
+          rewrite H3. destruct (should_be_listed x && str_eqb (display_name x) n); [rewrite G2|]; reflexivity.
+      + rewrite H1. exists es. split; [reflexivity|]. split; [exact H2|]. intro n. cbn [andb].
+        rewrite H3. symmetry. apply splus_zero_l.
+  Qed.
+
+  (* IngredientList::add_recipe *)
+  Lemma add_recipe_spec l all : consistent all = true -> recipe_free T all ->
+    exists l', add_recipe T fitq l all = Done l' /\
+      forall n, name_total T n l' ≡ name_total T n l ⊕ recipe_lists all n.
+  Proof.
+    intros Hc Hf. unfold add_recipe, group_ingredients, recipe_lists.
+    destruct (group_from_listed all Hc Hf all 0%N) as (es & H1 & H2 & H3); [intro k; reflexivity|].
+    rewrite H1. cbn [obind]. destruct (add_entries_spec T es l Hsane H2) as (l' & H4 & H5).
+    exists l'. split; [exact H4|]. intro n. rewrite H5, H3. reflexivity.
+  Qed.
+
+  Definition recipes_ok (rs : list (list ingredient)) : Prop :=
+    Forall (fun all => consistent all = true /\ recipe_free T all) rs.
+
+  Lemma add_recipes_spec rs : forall l, recipes_ok rs ->
+    exists l', add_recipes T fitq l rs = Done l' /\
+      forall n, name_total T n l' ≡ name_total T n l ⊕ ssum (map (fun all => recipe_lists all n) rs).
+  Proof.
+    induction rs as [|all r IH]; intros l Hr; cbn [add_recipes map ssum].
+    - exists l. split; [reflexivity|]. intro n. symmetry. apply splus_zero_r.
+    - inversion Hr as [|? ? [Hc Hf] Hr']; subst.
+      destruct (add_recipe_spec l all Hc Hf) as (l1 & H1 & H2). rewrite H1. cbn [obind].
+      destruct (IH l1 Hr') as (l2 & H3 & H4). exists l2. split; [exact H3|]. intro n.
+      rewrite H4, H2. apply splus_assoc.
+  Qed.
+
+  Lemma add_recipes_order rs rs' : recipes_ok rs -> Permutation rs rs' ->
+    exists l l', add_recipes T fitq [] rs = Done l /\ add_recipes T fitq [] rs' = Done l' /\
+                 forall n, name_total T n l ≡ name_total T n l'.
+  Proof.
+    intros Hr Hp.
+    assert (Hr' : recipes_ok rs').
+    { unfold recipes_ok in *. rewrite Forall_forall in *. intros x Hx. apply Hr.
+      eapply Permutation_in; [symmetry; exact Hp | exact Hx]. }
+    destruct (add_recipes_spec rs [] Hr) as (l & H1 & H2). destruct (add_recipes_spec rs' [] Hr') as (l' & H3 & H4).
+    exists l, l'. split; [exact H1|]. split; [exact H3|]. intro n. rewrite H2, H4.
+    apply splus_proper; [reflexivity|]. apply ssum_perm, Permutation_map, Hp.
+  Qed.
+End Lists.
+
 From Coq Require Import String Ascii.
 
 (* ------------------------------------------------------------------ *)
@@ -1045,4 +1522,29 @@ Lemma categorize_hyps_sat :
 Proof.
   exists w_inf_apart, w_list. split; [vm_compute; discriminate|]. split; [exact w_list_nodup|].
   split; [vm_compute; reflexivity | vm_compute; discriminate].
+Qed.
+
+(* the hypotheses of the recipe/list theorems are satisfiable: a definition with
+   a later reference, a hidden ingredient, a reference to a step *)
+Definition w_item (name : string) (v : Q) (hidden : bool) (rel : Group.relation) : ingredient :=
+  {| iname := s_of name; ialias := None; istem := None;
+     iqty := Some {| qval := VNum v; qunit := Some (s_of "g") |};
+     ihidden := hidden; iref := false; irecipe := false; irel := rel |}.
+Definition w_recipe2 : list ingredient :=
+  [w_item "flour" 100 false (RDef [2%N]); w_item "salt" 1 true (RDef []);
+   w_item "flour" 50 false (RRef 0 true); w_item "mix" 10 false (RRef 0 false)].
+
+Lemma w_T_free q : q_free w_T q.
+Proof. intros k u _ F. apply pq_free_b_ok. destruct (upq u); vm_compute; reflexivity. Qed.
+
+Lemma list_hyps_sat :
+  exists T (fitq : qty -> option qty) all,
+    sane T = true /\ (forall q q', fitq q = Some q' -> contrib T q' ≡ contrib T q) /\
+    (forall q q', fitq q = Some q' -> q_free T q -> q_free T q') /\
+    consistent all = true /\ recipe_free T all /\ refs_to all 0 = [2%N].
+Proof.
+  exists w_T, (fun q => Some q), w_recipe2.
+  split; [vm_compute; reflexivity|]. split; [intros q q' H; inversion H; reflexivity|].
+  split; [intros q q' H; inversion H; subst; auto|]. split; [vm_compute; reflexivity|].
+  split; [intros y q _ _; apply w_T_free | vm_compute; reflexivity].
 Qed.
